@@ -461,6 +461,7 @@ struct Rules {
     fmt_display: bool,
     iter_find: Option<String>,
     for_ref_skip: bool,
+    iter_mut_loop: bool,
     filter_map_collect: Option<String>,
     fmt_concat: bool,
     split_map_collect: Option<String>,
@@ -951,6 +952,17 @@ impl<'a> VisitMut for RuleVisitor<'a> {
             if let Some(e) = repl {
                 *l.expr = e;
                 self.applied.bump("E14-split-loop-over-collected-parts");
+            }
+        }
+        if self.rules.iter_mut_loop {
+            // E28: `for P in X { B }` with X a plain variable holding `&mut Vec<T>` ==> `for P in X.iter_mut() { B }` — what
+            // `impl IntoIterator for &mut Vec<T>` is defined as (std: `fn into_iter(self) -> IterMut<T> { self.iter_mut() }`); vstd specifies
+            // iter_mut, not that IntoIterator impl. If X is not a mutable reference to a vector the rewritten text does not type-check (undecided).
+            let is_plain_var = matches!(&*l.expr, Expr::Path(p) if p.path.get_ident().is_some());
+            if is_plain_var {
+                let e = (*l.expr).clone();
+                *l.expr = parse_quote!(#e.iter_mut());
+                self.applied.bump("E28-for-over-mut-vec-as-iter-mut");
             }
         }
         if self.rules.for_ref_skip {
@@ -1508,6 +1520,7 @@ fn transform_fn(
         fmt_display: rule_list.iter().any(|r| r == "E25"),
         iter_find: rule_list.iter().find_map(|r| if r == "E23" { Some(String::new()) } else { r.strip_prefix("E23=").map(String::from) }),
         for_ref_skip: rule_list.iter().any(|r| r == "E22"),
+        iter_mut_loop: rule_list.iter().any(|r| r == "E28"),
         filter_map_collect: rule_list.iter().find_map(|r| if r == "E21" { Some(String::new()) } else { r.strip_prefix("E21=").map(String::from) }),
         fmt_concat: rule_list.iter().any(|r| r == "E20"),
         split_map_collect: rule_list.iter().find_map(|r| if r == "E18" { Some(String::new()) } else { r.strip_prefix("E18=").map(String::from) }),
